@@ -7,7 +7,8 @@ MC      MC_Present: Present.tla on itself (lexer total, Lex(Render(toks)) = toks
         all-explicit and all-omitted rewritings denote the same, canonical text of every line reads
         back as that line, $INCLUDE never changes the includer's origin, $GENERATE count, sticky error.
 GEN     Gen_Zone "seq" (every shape sequence of length <= N, sharded), "idx" (seeded random longer
-        sequences), "gen" ($GENERATE matrix: 10 ranges x offset {-1,0,7} x width {0,3} x base {d,o,x,X}), "tree"
+        sequences in which one explicit owner in three repeats the previous one's spelling, plus the family (rr X)(d)(rr X'): same owner
+        spelling again after every directive / omitted-owner line), "gen" ($GENERATE matrix: 10 ranges x offset {-1,0,7} x width {0,3} x base {d,o,x,X}), "tree"
         (include files in directories with decoys of the same base name elsewhere; zone file in 4 locations;
         parsed through fstest.MapFS and, FS-less, on the real file system under a temporary directory)
         -> harness `zone replay`: each vector rendered in >= 4 spellings (canonical; noisy = tabs, case,
@@ -111,6 +112,39 @@ QUIRKS = [
 ]
 
 
+# shapes with an explicit owner, grouped by how the owner is SPELLED (a: 1 7; @: 3 8; the others alone), and the lines that
+# may stand between two records of the same spelling: the same token written again after the origin (or anything else)
+# changed must be completed again
+SAME_OWNER = [(r, r) for r in (1, 3, 4, 5, 7, 8, 10, 11, 12, 14, 15, 36, 37, 38, 39, 42)] + [(1, 7), (7, 1), (3, 8), (8, 3)]
+BETWEEN = (16, 17, 18, 40, 19, 22, 23, 24, 41, 26, 27, 28, 29, 34, 2)
+
+
+def repeats():
+    out = []
+    for (r1, r2) in SAME_OWNER:
+        for d in BETWEEN:
+            out.append({"c": 1, "q": [r1, d, r2]})
+            out.append({"c": 0, "q": [r1, d, 2, r2, 2]})
+    return out
+
+
+def biased(rnd, n):
+    """a random shape sequence in which, one time in three, an explicit owner repeats the previous explicit owner's spelling"""
+    group = {}
+    for a, b in SAME_OWNER:
+        group.setdefault(a, []).append(b)
+    q, last = [], None
+    for _ in range(n):
+        if last is not None and rnd.randrange(3) == 0:
+            s = rnd.choice(group[last])
+        else:
+            s = rnd.randrange(1, NSHAPES + 1)
+        if s in group:
+            last = s
+        q.append(s)
+    return q
+
+
 def spell_tv(ctx, paths, what="rendering", nchunks=4, cap=None, rnd=None):
     """TV of the harness renderings: a bad one is a harness bug, never a verdict.
     cap: validate a seeded random sample of that many events (thorough tier: millions of renderings)."""
@@ -206,7 +240,10 @@ def run(ctx):
     def G(*a, **kw):
         return lambda: spells.extend(gen_replay(ctx, binp, *a, **kw)[0])
     if ctx.quick:
-        idx = [{"c": rnd.randrange(8), "q": [rnd.randrange(1, NSHAPES + 1) for _ in range(rnd.randrange(4, 8))]} for _ in range(150)]
+        idx = [{"c": rnd.randrange(8), "q": biased(rnd, rnd.randrange(4, 8))} for _ in range(150)]
+        rep = repeats()
+        must = [c for c in rep if c["q"][:3] in ([1, 16, 1], [3, 16, 3], [1, 17, 7], [3, 40, 8], [1, 22, 1], [3, 23, 3], [1, 26, 1], [3, 28, 3], [36, 16, 36], [38, 16, 38])]
+        idx += must + rnd.sample(rep, 150)
         sh3 = rnd.sample(range(1024), 2)
         vp.parallel([
             lambda: ctx.tlc("MC_Present", consts={"StrLen": 5, "OctLen": 3}, workers=3, timeout=900),
@@ -221,7 +258,7 @@ def run(ctx):
         ], maxpar=6)
         vp.parallel([lambda: spell_tv(ctx, spells), lambda: record_tv(ctx, binp, 50, 3, par=3)])
     else:
-        idx = [{"c": rnd.randrange(8), "q": [rnd.randrange(1, NSHAPES + 1) for _ in range(rnd.randrange(4, 9))]} for _ in range(4000)]
+        idx = [{"c": rnd.randrange(8), "q": biased(rnd, rnd.randrange(4, 9))} for _ in range(4000)] + repeats()
         jobs = [
             lambda: ctx.tlc("MC_Present", consts={"StrLen": 6, "OctLen": 4}, workers=4, timeout=1800),
             lambda: ctx.tlc("MC_Zone", consts=dict(MaxLines=3, ShapeSet=MID_SHAPES, PolSet="{0, 15}"), workers=6, timeout=6000, xmx="12g"),   # 178 k states
